@@ -4,7 +4,9 @@
   alters a table makes the corresponding obligation fail at `lake build`.
 -/
 import Dlismodel.Generated.Tables
+import Dlismodel.Generated.Convs
 import Dlismodel.Standard
+import Dlismodel.StandardConvs
 namespace Dlis.Obligations
 open Dlis
 
@@ -39,4 +41,7 @@ units, enumeration / referenced type) is the pinned one -/
 theorem attrs_eq : Generated.attrs = Standard.attrs := by rfl
 /-- the enumerations high-compatibility mode enforces are the pinned ones -/
 theorem enums_eq : Generated.enums = Standard.enums := by rfl
+/-- every attribute of every object type carries the pinned converter and the pinned set of valid representation
+codes (the converter model `Model/Convert.lean` is instantiated from the pinned table) -/
+theorem convs_eq : Generated.convs = Standard.convs := by rfl
 end Dlis.Obligations
